@@ -1537,7 +1537,7 @@ namespace xsimd
         template <class A, class T, class _ = typename std::enable_if<(sizeof(T) == 1), void>::type>
         XSIMD_INLINE T reduce_max(batch<T, A> const& self, requires_arch<avx512f>) noexcept
         {
-            constexpr batch_constant<uint64_t, A, 5, 6, 7, 8, 0, 0, 0, 0> mask;
+            constexpr batch_constant<uint64_t, A, 4, 5, 6, 7, 0, 0, 0, 0> mask;
             batch<T, A> step = _mm512_permutexvar_epi64(mask.as_batch(), self);
             batch<T, A> acc = max(self, step);
             __m256i low = _mm512_castsi512_si256(acc);
@@ -1548,7 +1548,7 @@ namespace xsimd
         template <class A, class T, class _ = typename std::enable_if<(sizeof(T) == 1), void>::type>
         XSIMD_INLINE T reduce_min(batch<T, A> const& self, requires_arch<avx512f>) noexcept
         {
-            constexpr batch_constant<uint64_t, A, 5, 6, 7, 8, 0, 0, 0, 0> mask;
+            constexpr batch_constant<uint64_t, A, 4, 5, 6, 7, 0, 0, 0, 0> mask;
             batch<T, A> step = _mm512_permutexvar_epi64(mask.as_batch(), self);
             batch<T, A> acc = min(self, step);
             __m256i low = _mm512_castsi512_si256(acc);
